@@ -72,13 +72,60 @@ def design_runs(quick):
     else:
         for loc in LOCS:
             for exp in EXPS:
-                runs.append(("%s-%s-adv-solo" % (loc, exp), _solo(loc, exp, False, 3, 2, adv=(3, 40, 99, 101))))
-                runs.append(("%s-%s-pol-solo" % (loc, exp), _solo(loc, exp, True, 3, 1, adv=(3, 10, 40, 99, 100, 101))))
+                runs.append(("%s-%s-adv-solo3x1" % (loc, exp), _solo(loc, exp, False, 3, 1, adv=(3, 10, 40, 99, 100, 101))))
+                runs.append(("%s-%s-adv-solo2x2" % (loc, exp), _solo(loc, exp, False, 2, 2, keys=("a", "b"), vals=(1, 2))))
+                runs.append(("%s-%s-pol-solo3x1" % (loc, exp), _solo(loc, exp, True, 3, 1, adv=(3, 40, 99, 100, 101))))
                 runs.append(("%s-%s-adv-duo" % (loc, exp), _duo(loc, exp, False)))
         runs.append(("both-renew-pol-duo", _duo("both", "renew", True)))
         runs.append(("server-fixed-pol-duo", _duo("server", "fixed", True)))
-        runs.append(("both-renew-adv-solo-2keys", _solo("both", "renew", False, 2, 2, keys=("a", "b"), vals=(1, 2))))
     return runs
+
+
+NOCLEAR = '{"set","erase","expose","hide","age","how","srv","reset"}'
+IMPL_INV = "MechSaveOK MechPlacement Carry NoForeign Dead SidForm Exposed JarLeft"
+
+
+def _impl_text(loc, exp, pol, faithful, ops, inv, maxreq, maxops, adv=(3, 40, 99, 101)):
+    c = _solo(loc, exp, pol, maxreq, maxops, adv=adv, vals=(1, 2), tamper=0)
+    c["ops"] = ops
+    t = _cfg_text(c)
+    t = t.replace("SPECIFICATION Spec", "SPECIFICATION ISpec").replace("VIEW View", "VIEW IView")
+    t = t.replace("  Vals = {1,2}\n", "  Vals = {1,2}\n  BigVals = {2}\n  Faithful = %s\n" % ("TRUE" if faithful else "FALSE"))
+    t = t[:t.index("INVARIANTS")] + "INVARIANTS %s\n" % inv
+    return t
+
+
+def impl_runs(quick):
+    """(name, cfg text, invariant expected to be violated or None).  Faithful=TRUE models the code as it is; the two
+    expected counter-examples are the design-level reproduction of the deviations reported by Leg B."""
+    runs = [
+        ("impl-repaired-both-pol", _impl_text("both", "renew", True, False, ALLOPS, IMPL_INV, 2, 2), None),
+        ("impl-code-noclear-both-adv", _impl_text("both", "renew", False, True, NOCLEAR, IMPL_INV, 3, 1), None),
+        ("impl-code-meta", _impl_text("both", "renew", False, True, '{"set","clear","age","how","srv"}', "Carry", 3, 2, adv=(3, 101)), "Carry"),
+        ("impl-code-exposed", _impl_text("server", "renew", True, True, NOCLEAR, "Exposed", 3, 2), "Exposed"),
+    ]
+    if not quick:
+        for loc in LOCS:
+            for exp in EXPS:
+                runs.append(("impl-repaired-%s-%s-pol" % (loc, exp), _impl_text(loc, exp, True, False, ALLOPS, IMPL_INV, 3, 2 if loc != "both" else 1), None))
+                runs.append(("impl-code-noclear-%s-%s-adv" % (loc, exp), _impl_text(loc, exp, False, True, NOCLEAR, IMPL_INV, 3, 2 if loc != "both" else 1), None))
+    return runs
+
+
+def run_impl(ctx):
+    """mechanism layer (SessImpl): a disagreement here is MODEL-DRIFT, not a violation (DESIGN 1.2)"""
+    for name, text, expect in impl_runs(ctx.quick):
+        p = os.path.join(ctx.work, "SessImpl_%s.cfg" % name)
+        open(p, "w").write(text)
+        r = ctx.tlc("Session/SessImpl.tla", p, workers=8 if ctx.quick else 16, timeout=240 if ctx.quick else 1500, heap="12g",
+                    deadlock_off=True, note=name + (" (expected counter-example: %s)" % expect if expect else ""))
+        if r.failed:
+            ctx.undecided.append("TLC failed on SessImpl/%s rc=%s:\n%s" % (name, r.rc, r.out[-2000:]))
+        elif expect:
+            if r.violated != expect:
+                ctx.drift.append("SessImpl %s: the model of the code as it is no longer yields the %s counter-example (got %s)" % (name, expect, r.violated))
+        elif r.violated:
+            ctx.drift.append("SessImpl %s: mechanism model violates %s" % (name, r.violated))
 
 
 def write_cfg(ctx, name, consts):
@@ -119,7 +166,7 @@ def binding_runs(quick):
                     jobs.append(("exh3x1-pol", ["exh", loc, exp, "memory", "pol", 3, 1], "%d/2" % sh))
                 # all request sequences of depth 2, <= 2 operations each, 2 keys
                 for sh in range(6):
-                    jobs.append(("exh2x2", ["exh", loc, exp, "memory", "adv", 2, 2, 2], "%d/6" % sh))
+                    jobs.append(("exh2x2", ["exh", loc, exp, "memory", "adv", 2, 2, 2 if loc == "both" else 1], "%d/6" % sh))
         for exp in EXPS:
             jobs.append(("exh2x2-files", ["exh", "both", exp, "files", "adv", 2, 1, 2], None))
     return jobs
@@ -159,6 +206,13 @@ def diagnose(ctx, exec_lines, offset, tag):
         k = _matched(r)
         if k is not None and k > offset:
             hit.append(c)
+    if not hit:
+        for combo in (["Carry", "Load"], ["Deadline", "Kept"], list(CLAUSES)):
+            r = _tlc(ctx, f, relax_cfg(ctx, combo))
+            k = _matched(r)
+            if k is not None and k > offset:
+                hit = combo if len(combo) < len(CLAUSES) else ["several"]
+                break
     os.remove(f)
     return hit
 
@@ -366,3 +420,50 @@ def run_binding(ctx, exe, jobs, bundle_lines=60000):
         ctx.tlc_runs.append({"module": "Session/SessTrace.tla", "cfg": "SessTrace.cfg", "runs": len(tr), "distinct": sum(r["distinct"] for r in tr),
                              "generated": sum(r["generated"] for r in tr), "depth": max(r["depth"] for r in tr), "complete": all(r["complete"] for r in tr),
                              "wall_s": round(sum(r["wall_s"] for r in tr), 1), "rc": max(r["rc"] for r in tr), "note": "trace validation, summed"})
+
+
+SELFTEST_SCRIPT = """new 2
+req 0 set:a:s; expose:a
+tick 40
+req 0 set:b:b
+tick 3
+steal 1 0
+req 1 reset
+tick 3
+req 0
+"""
+
+
+def selftest(ctx, exe):
+    """binding self-test: a recorded history is accepted, and the same history with one corrupted field (a loaded
+    value; the sid kept across reset_session; a dropped Jar event) is rejected.  A failure is a defect of the
+    check, not of the code: reported as undecided."""
+    t = os.path.join(ctx.work, "selftest.ndjson")
+    rc, out, err = ctx.run_harness(exe, ["script", "both", "renew", "memory", "adv"], trace=t, stdin=SELFTEST_SCRIPT, timeout=120)
+    if rc != 0:
+        ctx.undecided.append("self-test: harness failed rc=%s %s" % (rc, (err or "")[-300:]))
+        return
+    L = [json.loads(x) for x in open(t) if x.strip()]
+    cfg = os.path.join(SPECDIR, "SessTrace.cfg")
+
+    def matched(M, name):
+        f = os.path.join(ctx.work, name)
+        open(f, "w").write("\n".join(json.dumps(x, separators=(",", ":")) for x in M) + "\n")
+        k = _matched(_tlc(ctx, f, cfg))
+        os.remove(f)
+        return k
+    import copy
+    if matched(L, "st0.ndjson") != len(L):
+        ctx.undecided.append("self-test: the unmodified scripted history was not accepted")
+        return
+    loaded = [i for i, x in enumerate(L) if x["e"] == "Loaded"]
+    saved = [i for i, x in enumerate(L) if x["e"] == "Saved"]
+    jars = [i for i, x in enumerate(L) if x["e"] == "Jar"]
+    M1 = copy.deepcopy(L); M1[loaded[1]]["m"][0]["v"] += 1
+    M2 = copy.deepcopy(L); M2[saved[2]]["ck"]["id"] = M2[saved[1]]["ck"]["id"]
+    M3 = copy.deepcopy(L); del M3[jars[0]]
+    for name, M, at in (("value", M1, loaded[1]), ("fixation", M2, saved[2]), ("dropped-event", M3, jars[0])):
+        k = matched(M, "st-%s.ndjson" % name)
+        if k is None or k >= len(M) or not (at - 1 <= k <= at + 1):
+            ctx.undecided.append("self-test: corrupted trace (%s) matched %s lines, expected rejection at line %d" % (name, k, at + 1))
+    ctx.extra["selftest"] = "3 corrupted traces rejected at the corrupted line"
